@@ -346,7 +346,7 @@ func genRender(ctx *Ctx, emit func(any, string)) {
 	}
 	// number leaves at the edges of their types
 	for _, l := range []*Node{{T: "int", I: -7}, {T: "int", Ty: 4, I: -9223372036854775808}, {T: "int", Ty: 4, I: 9223372036854775807},
-		{T: "int", Ty: 14, I: 9223372036854775807}, {T: "int", Ty: 1, I: -128}, {T: "float", Ty: 21, F: -0.5}, {T: "float", Ty: 20, F: 0.1}, {T: "bool", Bv: true}} {
+		{T: "int", Ty: 14, I: 9223372036854775807}, {T: "int", Ty: 1, I: -128}, {T: "float", Ty: 21, F: -0.5}, {T: "float", Ty: 20, F: 0.1}, {T: "float", Ty: 22, F: 0.1, F2: 0.2}, {T: "float", Ty: 22, F: -1.1}, {T: "float", Ty: 23, F: 0.1, F2: -0.3}, {T: "bool", Bv: true}} {
 		emit(RenderInput{Tree: &Node{T: "stack", Kind: "OR", Enc: [][]string{{"<", ">"}}, Els: []*Node{l, leafOf("x")}}}, "exhaustive")
 		// negative / forward index support must not show in String
 		for _, io := range []int{16, 32, 48} {
